@@ -2,7 +2,7 @@
 //! concrete items, measures base items and whole expressions over all Unicode scalar values
 //! through the public API, and reports the realised atoms with the measured membership.
 
-use crate::dump::{leaf_bits, Bits, N_SCALARS};
+use crate::dump::{leaf_bits, leaf_bits_opt, Bits, N_SCALARS};
 use rand::prelude::*;
 use serde_json::{json, Value};
 use std::collections::BTreeMap;
@@ -150,7 +150,7 @@ pub fn main(args: &[String]) -> i32 {
             let src = bracket(e, &items);
             let rec = (|| -> Result<Value, String> {
                 let bases: Vec<Arc<Bits>> = pick.iter().map(|i| leaf_bits(&table[*i].1)).collect::<Result<_, _>>()?;
-                let whole = leaf_bits(&src)?;
+                let whole = leaf_bits_opt(&src, false)?;
                 // atoms: realised truth assignments to the five base items
                 let mut atoms: BTreeMap<u8, (u64, u64, u32)> = BTreeMap::new(); // key -> (members, non-members, representative)
                 for c in (0..=0x10FFFFu32).filter(|c| char::from_u32(*c).is_some()) {
